@@ -297,7 +297,9 @@ func (d *drv) emit(ev string, takes []took, kv ...any) {
 
 func digestPath(b *blob) string { return "sha256:" + b.hex }
 
-func (d *drv) sessDone(s *sess) { s.pc, s.uid, s.patched, s.b, s.n, s.kind = "idle", "", false, nil, "", "" }
+func (d *drv) sessDone(s *sess) {
+	s.pc, s.uid, s.patched, s.b, s.n, s.kind = "idle", "", false, nil, "", ""
+}
 
 // after a handler request of session s was sent or released: where is it now?
 func (d *drv) sessAfter(s *sess, e *event) (code int) {
